@@ -105,6 +105,7 @@ struct lin_record {
   double sin_arg[2], cos_arg[2];
   double sqrt_arg[2];
   double atan2_y[2], atan2_x[2];
+  double brg0[2]; /* ghost: atan2 value #i mapped to [0, 2pi] as a VARIABLE (keeps CBMC from distributing a comparison over the ?:) */
   double acos_arg;
   double north; /* value returned by PointData::xNorthAngle() */
   double raw; /* angular misclosure before the reduction loops */
@@ -136,6 +137,7 @@ double lin_atan2(double y, double x)
   __CPROVER_assume(-M_PI <= r && r <= M_PI); /* assumed libm contract */
   G.atan2_y[i] = y;
   G.atan2_x[i] = x;
+  G.brg0[i] = r >= 0 ? r : r + 2 * M_PI;
   G.natan2 = i + 1;
   return r;
 }
@@ -219,9 +221,9 @@ bool AngularObservations_right_handed_angles(const struct PointData *self);
    the _val contracts write the symbols with the same (under the preconditions: dead) case split.  The structure
    check proves, with SAT, that each hint EQUALS the plain symbol (HINTS_EQ), so nothing is weakened.            */
 #define DISTX(i) (P.sqrt_ret[i] < 1e-6 ? 0.0 : P.sqrt_ret[i])
-#define BRGX(i) (P.sqrt_ret[i] < 1e-6 ? 0.0 : BRG(i))
+#define BRGX(i) (P.sqrt_ret[i] < 1e-6 ? 0.0 : ((!(P.sqrt_ret[i] < 1e-6) && !(G.brg0[i] >= 2 * M_PI)) ? G.brg0[i] : 0.0)) /* the merge of the two early exits exactly as CBMC builds it; G.brg0[i] == BRG0(i) is part of HINTS_EQ */
 #define ORIX(o) (SP(o)->test_or ? SP(o)->attr_or : 0.0)
-#define HINTS_EQ(i) (DISTX(i) == P.sqrt_ret[i] && BRGX(i) == BRG(i))
+#define HINTS_EQ(i) (DISTX(i) == P.sqrt_ret[i] && G.brg0[i] == BRG0(i) && BRGX(i) == BRG(i))
 /* sin and cos were applied to the bearing of call #i */
 #define TRIG_OF(i) (G.sin_arg[i] == BRG(i) && G.cos_arg[i] == BRG(i))
 #define TRIG(i) (FIN(P.S[i], 1.0) && FIN(P.C[i], 1.0) && FIN(P.atan2_ret[i], M_PI))
